@@ -3,6 +3,7 @@ package c09
 
 import (
 	"fmt"
+	"strings"
 	"testing"
 
 	"pgregory.net/rapid"
@@ -17,6 +18,11 @@ func gen(t *rapid.T) peng.Case {
 		Cancel: true, MaxSleepUs: 3000, HoldNoRelUs: 6000, SlowQFUs: 20000, StreamItems: 6, AwaitProb: 3, ErrorNodes: true, FullQuorum: true,
 		ReleaseModes: []string{"", "", "early"}})
 	c.Probe = true
+	// ... and then one quorum call (and sometimes an async or correctable one) that needs every node
+	c.ProbeKinds = []string{"QC"}
+	if k := rapid.SampledFrom([]string{"", "", "Async", "Corr", "QCPerNode"}).Draw(t, "probeKind2"); k != "" {
+		c.ProbeKinds = append(c.ProbeKinds, k)
+	}
 	// requests that are too large to be sent: SendMsg fails although the stream is healthy
 	if rapid.IntRange(0, 3).Draw(t, "sendLimit") == 0 {
 		c.Mgrs[0].MaxSendBytes = 4096
@@ -127,6 +133,17 @@ func run(c peng.Case) vt.Verdict {
 		if p.Attempts > 1 {
 			classes = append(classes, "probe-retried-after-stream-reset")
 		}
+		if p.Kind != "" {
+			if p.Hung != "" {
+				return vt.Verdict{OK: false, Key: "C09/node-dead/" + strings.ToLower(p.Kind) + "/" + p.Hung, History: r.Events, Classes: classes,
+					Msg: fmt.Sprintf("after the workload drained and every node had answered an RPC, a %s call that needs all nodes did not end within 2x%v: %s", p.Kind, scen.B, p.Hung)}
+			}
+			if !p.OK {
+				return vt.Verdict{OK: false, Key: "C09/node-unusable/" + strings.ToLower(p.Kind), History: r.Events, Classes: classes,
+					Msg: fmt.Sprintf("after the workload drained and every node had answered an RPC, %d consecutive %s calls that need all nodes failed, the last with: %s", p.Attempts, p.Kind, p.Err)}
+			}
+			continue
+		}
 		if p.Hung != "" {
 			return vt.Verdict{OK: false, Key: "C09/node-dead/" + p.Hung, History: r.Events, Classes: classes,
 				Msg: fmt.Sprintf("after the workload drained, an RPC with a fresh context to server %d was not answered within 2x%v: %s (hung calls: %v)", p.Server, scen.B, p.Hung, r.Hung)}
@@ -152,7 +169,7 @@ func run(c peng.Case) vt.Verdict {
 func TestProp(t *testing.T) {
 	vt.Main(t, vt.Spec[peng.Case]{
 		ID:           "C09",
-		Rule:         "rapid-generated workloads: 4-40 calls of all 20 kinds from 1-6 threads with barriers on 1-4 reachable servers, cancellations and deadlines at generated instants (1 us - 5 ms), thresholds up to the configuration size, correctable completion, slow quorum functions (up to 20 ms), slow/holding/early-releasing/failing handlers that always return, server streams that send up to 6 replies per node, GOMAXPROCS 1/2/4/default, in 1 of 4 cases a client send-size limit with requests too large to send, in 1 of 4 cases 1-3 calls (two-way with a deadline, or one-way) of methods of another registered service for which the servers have no handler, in half of the cases seeded jitter at the statement-level yield points of the instrumented runtime; in 1 of 4 cases a 15 ms dial timeout and probe handlers that take 25 ms; after the workload drains, an RPC with a fresh context to every node must return that node's genuine reply (black-box probe; a failed probe is confirmed by two goroutine dumps 10 s apart); non-trivial (measured) = a stream was re-created after a cancelled send, or a stream call was abandoned with replies outstanding, or a slow quorum function, or a request too large to send, or a call of a method without a handler",
+		Rule:         "rapid-generated workloads: 4-40 calls of all 20 kinds from 1-6 threads with barriers on 1-4 reachable servers, cancellations and deadlines at generated instants (1 us - 5 ms), thresholds up to the configuration size, correctable completion, slow quorum functions (up to 20 ms), slow/holding/early-releasing/failing handlers that always return, server streams that send up to 6 replies per node, GOMAXPROCS 1/2/4/default, in 1 of 4 cases a client send-size limit with requests too large to send, in 1 of 4 cases 1-3 calls (two-way with a deadline, or one-way) of methods of another registered service for which the servers have no handler, in half of the cases seeded jitter at the statement-level yield points of the instrumented runtime; in 1 of 4 cases a 15 ms dial timeout and probe handlers that take 25 ms; after the workload drains, an RPC with a fresh context to every node must return that node's genuine reply, and then a quorum call (sometimes also an async, correctable or per-node call) that needs every node must succeed (black-box probe; a failed probe is confirmed by two goroutine dumps 10 s apart); non-trivial (measured) = a stream was re-created after a cancelled send, or a stream call was abandoned with replies outstanding, or a slow quorum function, or a request too large to send, or a call of a method without a handler",
 		Gen:          gen,
 		Run:          run,
 		TrackCurrent: true,
